@@ -30,6 +30,9 @@ func VH_C12() {
 		lg.SetColorMode(false)
 	}
 	SetDefault(lgi)
+	// the recorded package level is whatever an earlier package-level SetLevel left:
+	// it must not matter once the default logger has been replaced
+	lvlCurrent = Level(vInt())
 	e := vChoose(vNumEntryPoints)
 	var sev Level
 	if e == 24 || e == 25 {
